@@ -244,7 +244,7 @@ func checkOutputModes(c *c16Case) (key, msg string, echoes int) {
 				return "harness/c16-no-matcher", "cannot load /repo/.github/actionlint-matcher.json", echoes
 			}
 			for i, ln := range lines {
-				e := ref[i]
+				e := errs[i] // the diagnostics returned by this very run (their order among equal positions is C02's matter)
 				m := matcherRE.FindStringSubmatch(ln)
 				if m == nil {
 					return "C16/oneline-line-not-matched-by-problem-matcher", fmt.Sprintf("%s: line %q", mode.name, ln), echoes
@@ -264,7 +264,7 @@ func checkOutputModes(c *c16Case) (key, msg string, echoes int) {
 		case "default":
 			// reference rendering
 			var want strings.Builder
-			for _, e := range ref {
+			for _, e := range errs {
 				fmt.Fprintf(&want, "%s:%d:%d: %s [%s]\n", e.Filepath, e.Line, e.Column, e.Message, e.Kind)
 				if l, ok := sourceLine([]byte(c.YAML), e.Line); ok && e.Column >= 1 && e.Column-1 <= len(l) {
 					g := fmt.Sprintf("%d | ", e.Line)
@@ -306,7 +306,7 @@ func checkOutputModes(c *c16Case) (key, msg string, echoes int) {
 				return "C16/json-count", fmt.Sprintf("%d vs %d", len(fs), len(ref)), echoes
 			}
 			for i, f := range fs {
-				e := ref[i]
+				e := errs[i]
 				if f.Message != strings.ToValidUTF8(e.Message, "\uFFFD") || f.Line != e.Line || f.Column != e.Column || f.Kind != e.Kind || f.Filepath != e.Filepath {
 					return "C16/json-does-not-round-trip", fmt.Sprintf("%+v vs %s:%d:%d %q [%s]", f, e.Filepath, e.Line, e.Column, e.Message, e.Kind), echoes
 				}
